@@ -42,6 +42,7 @@ def run(chk):
     chk.rule("CLONE", "every _clone rebuilds all node-, expression- and identity-bearing fields")
     chk.rule("R1", "Alias._clone composes its uuid_map with the clone's map and drops it from the clone")
     chk.rule("R2", "Cache.update[Alias]: name maps, cols and partition_by are remapped through uuid_map, derived_from is cut")
+    chk.rule("R2v", "typestate exploration of the interpreted cache: after alias() every column in scope has a fresh identity, is bound to the alias node and keeps name / type, names and grouping follow, the derivation is cut; alias(keep_col_refs=True) changes nothing")
     chk.rule("R3", "recursive leaf visitors (create_aliases, get_engine) reach the right child of every binary verb")
     chk.rule("R4", "alias: fresh identity for every column in scope unless keep_col_refs; transfer_col_references maps by checked name")
     chk.rule("R4v", "the alias verb interpreted on a stub table: new Alias node around the input node, name on the new node only, every column in scope (hidden included) gets a fresh distinct identity unless keep_col_refs")
@@ -68,30 +69,40 @@ def run(chk):
            and "if self.uuid_map is not None" in src,
            "Alias._clone no longer composes the alias map with the clone map (references taken after the alias would not resolve in the cloned tree)")  # fmt: skip
 
-    # ---- R2
+    # ---- R2v / R2: the Alias slice of Cache.update decided on the typestate exploration of the interpreted cache (alias with fresh
+    # identities and alias(keep_col_refs=True) are actions of the palette: names, identities, grouping and scope are compared with
+    # the reference after every step, the column objects must carry their new identity and the alias node, the derivation is cut);
+    # the spelling of the slice is the fallback
+    from .. import cachesim as _cs16
+
+    r2_decided = bool(_cs16.report(chk, m, "R2v", "C16", "alias re-roots every column in scope"))
     ccfg = sib.cfgs["cache"]
     res = ccfg.outputs["SEL"].split(".")[0]
     al = sym.cls("Alias")
     items = Slicer(sym, ccfg.module, ccfg.subject, al).slice(ccfg.func.body)
     cond = next((it for it in items if isinstance(it, Cond) and "uuid_map is not None" in norm(it.test)), None)
-    if cond is None:
-        raise AnalysisError("C16/R2: `if node.uuid_map is not None` not found in the Alias slice of Cache.update")
-    assigned = {}
-    for st in cond.body:
-        if isinstance(st, ast.Assign) and isinstance(st.targets[0], ast.Attribute) and norm(st.targets[0].value) == res:
-            assigned[st.targets[0].attr] = norm(st.value)
-    for f in ("name_to_uuid", "cols", "partition_by"):
-        chk.ob("R2", ccfg.module, cond.node, f"Alias remaps {f} through node.uuid_map", f in assigned and f"{ccfg.subject}.uuid_map[" in assigned[f],
-               f"the Alias slice does not remap `{f}` through uuid_map: old references keep resolving / new ones do not")  # fmt: skip
-    chk.ob("R2", ccfg.module, cond.node, "Alias rebuilds uuid_to_name from the remapped name_to_uuid", "uuid_to_name" in assigned and f"{res}.name_to_uuid.items()" in assigned["uuid_to_name"],
-           "uuid_to_name is not rebuilt from the remapped name map")  # fmt: skip
-    chk.ob("R2", ccfg.module, cond.node, "Alias cuts the derivation: derived_from = set()", assigned.get("derived_from") == "set()",
-           "after alias() the result still counts as derived from its origin: self-joins stay rejected / the origin's references stay valid")  # fmt: skip
-    other = [st for st in cond.orelse]
-    chk.ob("R2", ccfg.module, cond.node, "Alias with keep_col_refs changes no identity state", not other, "the keep_col_refs branch of the Alias slice modifies the cache")
-    # the new Col objects carry the new identity and the alias node
-    chk.ob("R2", ccfg.module, cond.node, "remapped cols are Col(name, node, new uuid, dtype, ftype)", "Col(col.name, node, node.uuid_map[uid], col._dtype, col._ftype)" in assigned.get("cols", ""),
-           "columns of the aliased table are not re-created with the new identity and the alias node as their table")  # fmt: skip
+    # (statements of the Alias slice that index uuid_map: the body of the `uuid_map is not None` branch when it has that form)
+    alias_stmts = list(cond.body) if cond is not None else [st for st, _c in flat(items)]
+    if not r2_decided:
+        # ---- R2
+        if cond is None:
+            raise AnalysisError("C16/R2: `if node.uuid_map is not None` not found in the Alias slice of Cache.update")
+        assigned = {}
+        for st in cond.body:
+            if isinstance(st, ast.Assign) and isinstance(st.targets[0], ast.Attribute) and norm(st.targets[0].value) == res:
+                assigned[st.targets[0].attr] = norm(st.value)
+        for f in ("name_to_uuid", "cols", "partition_by"):
+            chk.ob("R2", ccfg.module, cond.node, f"Alias remaps {f} through node.uuid_map", f in assigned and f"{ccfg.subject}.uuid_map[" in assigned[f],
+                   f"the Alias slice does not remap `{f}` through uuid_map: old references keep resolving / new ones do not")  # fmt: skip
+        chk.ob("R2", ccfg.module, cond.node, "Alias rebuilds uuid_to_name from the remapped name_to_uuid", "uuid_to_name" in assigned and f"{res}.name_to_uuid.items()" in assigned["uuid_to_name"],
+               "uuid_to_name is not rebuilt from the remapped name map")  # fmt: skip
+        chk.ob("R2", ccfg.module, cond.node, "Alias cuts the derivation: derived_from = set()", assigned.get("derived_from") == "set()",
+               "after alias() the result still counts as derived from its origin: self-joins stay rejected / the origin's references stay valid")  # fmt: skip
+        other = [st for st in cond.orelse]
+        chk.ob("R2", ccfg.module, cond.node, "Alias with keep_col_refs changes no identity state", not other, "the keep_col_refs branch of the Alias slice modifies the cache")
+        # the new Col objects carry the new identity and the alias node
+        chk.ob("R2", ccfg.module, cond.node, "remapped cols are Col(name, node, new uuid, dtype, ftype)", "Col(col.name, node, node.uuid_map[uid], col._dtype, col._ftype)" in assigned.get("cols", ""),
+               "columns of the aliased table are not re-created with the new identity and the alias node as their table")  # fmt: skip
 
     # ---- R3
     binary = sorted(c.name for c in sym.verb_classes() if "right" in c.all_fields())
@@ -221,7 +232,7 @@ def run(chk):
 
     # ---- R6 K3
     consumers = []
-    for st in cond.body:
+    for st in alias_stmts:
         for sub in ast.walk(st):
             if isinstance(sub, ast.Subscript) and norm(sub.value) == f"{ccfg.subject}.uuid_map":
                 # which set does the key range over?
